@@ -15,6 +15,9 @@ def sh(cmd, cwd=None, env=None, timeout=1800):
 def main():
     args = sys.argv[1:]
     root, offset = '/tmp/seeds', 0
+    if args and args[0] == '--round5':
+        root, offset = '/tmp/seeds5', 12
+        args = args[1:]
     if args and args[0] == '--round4':
         root, offset = '/tmp/seeds4', 9
         args = args[1:]
